@@ -2362,13 +2362,19 @@ impl RaftNode {
             if log_ok {
                 success = self.append_leader_entries(&ae.entries, &mut persistent);
 
-                match_index = persistent.array_len_as_log_index();
+                // Only the prefix ending at the last entry carried by this request is
+                // known to match the leader's log; local entries beyond it may be stale
+                // leftovers from an older term and must be neither acknowledged nor
+                // committed.
+                let last_new_index = (ae.prev_log_index + ae.entries.len() as u64)
+                    .min(persistent.array_len_as_log_index());
+                match_index = last_new_index;
 
                 // Update commit index
                 let mut volatile = self.volatile.write();
-                if ae.leader_commit > volatile.commit_index {
-                    volatile.commit_index =
-                        ae.leader_commit.min(persistent.array_len_as_log_index());
+                let new_commit = ae.leader_commit.min(last_new_index);
+                if new_commit > volatile.commit_index {
+                    volatile.commit_index = new_commit;
                 }
             }
         }
